@@ -1696,7 +1696,14 @@ class Tensor:
 
                 # Shape: [S0, S1, ... SN] -> (S0, S1, ... SN)
                 elif coord_style == "tuple":
-                    curr_shape += (shape,)
+                    #
+                    # Note: a rank that is already flattened has a tuple
+                    # as shape, which is spliced in like its rank ids above
+                    #
+                    if isinstance(shape, tuple):
+                        curr_shape += shape
+                    else:
+                        curr_shape += (shape,)
                     if i == depth + levels:
                         new_shape.append(curr_shape)
 
